@@ -294,6 +294,67 @@ T.update({
  ),
 })
 
+# ---- third round: eight changes aimed at the HTTP / WebTorrent trackers and the parts of the
+# multi-tracker properties that rounds 1-2 had not touched
+T.update({
+ "C02c": dict(
+  worktree="/tmp/seed5-C02",
+  summary="http upsert_peer_and_get_response_peers: absent / zero numwant means min(50, max_peers) instead of max_peers",
+  needs="protocol.max_peers above 50 (default is exactly 50), an announce without numwant (or numwant=0) and more than 50 other members",
+  demo="demo.diff (unit tests in crates/http/src/workers/swarm/storage.rs)",
+  caught_by=[caught("C02", "random", "peer-list-incomplete"), caught("C07", "big-swarm", "observe-set", note="the big-swarm sub-check added after round 1")],
+ ),
+ "C03c": dict(
+  worktree="/tmp/seed5-C03",
+  summary="ws IpVersion::canonical_from_ip as an integer compare `(u128::from(addr) >> 32) as u64 == 0xffff`: the cast drops the top 32 bits of the 96-bit prefix, so X:Y:0:0:0:ffff:a:b counts as IPv4",
+  needs="an IPv6 source of exactly that shape with X:Y non-zero (a uniformly random address hits it with probability 2^-64)",
+  demo="demo.diff (unit tests in crates/ws/src/workers/swarm/storage.rs)",
+  caught_by=[caught("C03", "canonical", "ws-ip-version")],
+ ),
+ "C10c": dict(
+  worktree="/tmp/seed5-C10",
+  summary="http LargePeerMap::clean_and_get_num_peers removes `drain(..partition_point(expired))`, assuming the map is ordered by deadline; swap_remove on re-announce breaks the order",
+  needs="heap representation, a re-announce of a peer that is not the last entry, distinct deadlines, a cleaning pass between the deadlines of the out-of-order entries",
+  demo="demo.diff (unit tests in crates/http/src/workers/swarm/storage.rs)",
+  caught_by=[caught("C10", "http", "observe-set"), caught("C07", "hist", "observe-set")],
+ ),
+ "C11c": dict(
+  worktree="/tmp/seed5-C11",
+  summary="http TorrentMap::clean skips the per-torrent access-list lookup unless `mode.is_on() && list.len() > 0`: an empty allow list (which forbids everything) removes nothing",
+  needs="http tracker, allow mode, torrents stored under a non-empty list, a successful reload to an empty (or blank-lines-only) file, then a cleaning pass",
+  demo="demo.diff (unit tests in crates/http/src/workers/swarm/storage.rs)",
+  caught_by=[caught("C11", "http-storage", "torrent-count-after-clean")],
+ ),
+ "C12c": dict(
+  worktree="/tmp/seed5-C12",
+  summary="peer_id crate, webtorrent(): version characters converted with `c.to_digit(10).unwrap()`; the accepting regex only guarantees digits for the first three",
+  needs="a peer id `-WW` / `-WD` + three digits + a letter (e.g. -WW010r-...) reaching PeerId::client() (UDP statistics worker with peer_clients on; ws with metrics)",
+  demo="demo/crates/peer_id/tests/c12_demo.rs",
+  caught_by=[caught("C12", "mutations", "parser-panic")],
+ ),
+ "C18c": dict(
+  worktree="/tmp/seed5-C18",
+  summary="http max_peers_fitting_response_buffer picks the peer size from use_ipv4 (6 bytes) on a dual-stack tracker: max_peers up to 1322 accepted, an IPv6 announce among > ~448 IPv6 peers overflows the 8192-byte buffer (patch.diff is rebased on the F16 fix, which rewrote the same expression; the agent's original is patch-as-written-before-F16.diff)",
+  needs="use_ipv4 and use_ipv6 on, max_peers in 441..1322, an IPv6 client and a swarm of more than ~448 IPv6 peers",
+  demo="demo/crates/http/tests/seeded_demo.rs",
+  caught_by=[caught("C18", "configs", "reply-dropped", note="both the patch as written (before F16) and the rebased one; the agent's notes also pointed at the remaining hole in the original validation that became finding F16")],
+ ),
+ "C19c": dict(
+  worktree="/tmp/seed5-C19",
+  summary="aquatic_http::run: the same 'collect the finished indices, then remove them in ascending order' refactor as C19b, in the HTTP tracker",
+  needs="two or more workers finished within one 5 s sweep, e.g. socket_workers = 2 and an address that is already in use",
+  demo="demo/crates/http/tests/seeded_demo.rs",
+  caught_by=[caught("C19", "faults", "tracker-kept-running", note="by the simultaneous-death cases added after C19b")],
+ ),
+ "C20c": dict(
+  worktree="/tmp/seed5-C20",
+  summary="udp scrape export: `<path>.tmp` opened with OpenOptions write+create but without truncate",
+  needs="an interrupted export that leaves a temporary file with content (kill between flush and rename, or in the middle of a large export), a restart with fewer torrents, and the next export: its head is the new lines, its tail the stale ones",
+  demo="demo/crates/udp/tests/seeded_demo.rs",
+  caught_by=[caught("C20", "crash-points", "export-partial-or-missing", note="missed at first: the crash-point sub-check judged the path right after the abort but never let the tracker export again. Caught after a restart with a smaller state and a second export to the same path were added to every abort case")],
+ ),
+})
+
 def main():
     results = open(os.path.join(V, "mutants/RESULTS.txt")).read().splitlines()
     for pid, t in T.items():
@@ -306,7 +367,7 @@ def main():
             continue
         res = open(vr).read().strip()
         prop = pid[:3]
-        n = "2" if pid.endswith("b") else "1"
+        n = "3" if pid.endswith("c") else ("2" if pid.endswith("b") else "1")
         lines = [l for l in results if re.search(r"\b%s(\+C\d\d)*-seeded%s" % (prop, n), l) or re.search(r"C\d\d\+%s-seeded%s" % (prop, n), l) or (n == "1" and ("seeded-%s" % prop.lower()) in l)]
         meta = {
             "property": prop,
